@@ -26,24 +26,39 @@ func checkC09(c *Ctx) {
 
 	// the note handler: the Topic method that stores Note.SeqId into readID/recvID; the stores may
 	// sit in an extracted helper that receives the sequence number as a parameter
-	var handler, marker *ssa.Function
-	var markSite ssa.CallInstruction
+	var handler *ssa.Function
+	type markerT struct {
+		fn   *ssa.Function
+		site ssa.CallInstruction // its call in the handler (nil: the handler itself)
+	}
+	var markers []markerT
+	addMarker := func(fn *ssa.Function, site ssa.CallInstruction) {
+		for _, m := range markers {
+			if m.fn == fn {
+				return
+			}
+		}
+		markers = append(markers, markerT{fn, site})
+	}
 	for _, a := range append(c.censusField(readID), c.censusField(recvID)...) {
 		if a.Kind != "store" {
 			continue
 		}
 		v := a.Instr.(*ssa.Store).Val
 		if isSeq(v) {
-			handler, marker = a.Fn, a.Fn
+			handler = a.Fn
+			addMarker(a.Fn, nil)
 			continue
 		}
 		// the new marks computed in locals and written once: a phi with the sequence number among its values
 		if _, isPhi := v.(*ssa.Phi); isPhi && core.Derives(v, isSeq, false) {
-			handler, marker = a.Fn, a.Fn
+			handler = a.Fn
+			addMarker(a.Fn, nil)
 			continue
 		}
+		// a helper (for instance a method of the record) that receives the sequence number
 		p, ok := core.Strip(v).(*ssa.Parameter)
-		if !ok || handler != nil {
+		if !ok {
 			continue
 		}
 		idx := -1
@@ -57,74 +72,86 @@ func checkC09(c *Ctx) {
 			continue
 		}
 		if args := callers[0].Site.Common().Args; idx < len(args) && isSeq(args[idx]) {
-			handler, marker, markSite = callers[0].Caller, a.Fn, callers[0].Site
+			if handler == nil {
+				handler = callers[0].Caller
+			}
+			addMarker(a.Fn, callers[0].Site)
 		}
 	}
 	if handler == nil {
 		c.lost("note handler (function storing MsgClientNote.SeqId into perUserData.readID/recvID)")
 	}
 	r.Func(fk(handler))
-	if marker != handler {
-		r.Func(fk(marker))
-		subst := map[ssa.Value]ssa.Value{}
-		for i, p := range marker.Params {
-			if i < len(markSite.Common().Args) {
-				subst[p] = markSite.Common().Args[i]
+	isMarker := func(fn *ssa.Function) bool {
+		for _, m := range markers {
+			if m.fn == fn {
+				return true
 			}
 		}
-		core.ParamSubst = subst
-		defer func() { core.ParamSubst = nil }()
+		return false
 	}
-	// guarded: behind the guard inside the function holding the store, or - for an extracted helper -
-	// the helper's call in the handler is behind it
-	guarded := func(st ssa.Instruction, g core.Guard) (bool, []int) {
-		ok, cnt := core.GuardedBy(marker, st, g)
-		if (!ok || cnt[0] == 0) && marker != handler {
-			saved := core.ParamSubst
-			core.ParamSubst = nil
-			ok, cnt = core.GuardedBy(handler, markSite.(ssa.Instruction), g)
-			core.ParamSubst = saved
-		}
-		return ok, cnt
-	}
-
 	r.Floor("C09.1-marks-monotone", 3)
 	gLast := core.LessGuard("lastID<SeqId", core.IsFieldLoad(lastID), isSeq, false)
-	for _, vs := range virtualStores(marker, readID) {
-		st := vs.St
-		construct := fk(marker) + ": readID = " + valDesc(vs.Val, noteSeq.Name())
-		if isSeq(vs.Val) {
-			g := core.LessGuard("readID<SeqId", core.IsFieldLoad(readID), isSeq, true)
-			ok, cnt := guarded(vs.At, g)
-			r.Check(ok && cnt[0] > 0, "C09.1-marks-monotone", construct, c.pos(st), "behind cached readID < note.SeqId", "the read mark can be set to a value not above the current one (moves backwards / duplicate accepted)")
-		} else {
-			r.Fail("C09.1-marks-monotone", construct, c.pos(st), "read mark assigned from something other than the note's sequence number in the note handler")
-		}
-		ok, cnt := guarded(vs.At, gLast)
-		r.Check(ok && cnt[0] > 0, "C09.1b-marks-bounded", construct, c.pos(st), "behind note.SeqId <= lastID", "a mark beyond the last message id can be stored")
-	}
 	nRecv := 0
-	for _, vs := range virtualStores(marker, recvID) {
-		st := vs.St
-		nRecv++
-		construct := fk(marker) + ": recvID = " + valDesc(vs.Val, noteSeq.Name())
-		switch {
-		case isSeq(vs.Val):
-			g := core.LessGuard("recvID<SeqId", core.IsFieldLoad(recvID), isSeq, true)
-			ok, cnt := guarded(vs.At, g)
-			r.Check(ok && cnt[0] > 0, "C09.1-marks-monotone", construct, c.pos(st), "behind cached recvID < note.SeqId", "the received mark can be set to a value not above the current one (the guard compares a different mark or is missing)")
-		case core.IsFieldLoad(readID)(vs.Val):
-			// the received mark compared is the cached one or the one just taken from the note
-			g := core.LessGuard("recvID<readID", core.Or(core.IsFieldLoad(recvID), isSeq), core.IsFieldLoad(readID), true)
-			ok, cnt := guarded(vs.At, g)
-			r.Check(ok && cnt[0] > 0, "C09.1-marks-monotone", fmt.Sprintf("%s #%d", construct, nRecv), c.pos(st), "received dragged up to read only when it is below it", "recvID is overwritten with readID without the recvID < readID test")
-		default:
-			r.Fail("C09.1-marks-monotone", construct, c.pos(st), "received mark assigned from an unexpected value in the note handler")
+	for _, mk := range markers {
+		marker, markSite := mk.fn, mk.site
+		if markSite != nil {
+			r.Func(fk(marker))
+			subst := map[ssa.Value]ssa.Value{}
+			for i, p := range marker.Params {
+				if i < len(markSite.Common().Args) {
+					subst[p] = markSite.Common().Args[i]
+				}
+			}
+			core.ParamSubst = subst
 		}
-		ok, cnt := guarded(vs.At, gLast)
-		r.Check(ok && cnt[0] > 0, "C09.1b-marks-bounded", fmt.Sprintf("%s #%d", construct, nRecv), c.pos(st), "behind note.SeqId <= lastID", "a mark beyond the last message id can be stored")
+		// guarded: behind the guard inside the function holding the store, or - for an extracted helper -
+		// the helper's call in the handler is behind it
+		guarded := func(st ssa.Instruction, g core.Guard) (bool, []int) {
+			ok, cnt := core.GuardedBy(marker, st, g)
+			if (!ok || cnt[0] == 0) && markSite != nil {
+				saved := core.ParamSubst
+				core.ParamSubst = nil
+				ok, cnt = core.GuardedBy(markSite.Parent(), markSite.(ssa.Instruction), g)
+				core.ParamSubst = saved
+			}
+			return ok, cnt
+		}
+		for _, vs := range virtualStores(marker, readID) {
+			st := vs.St
+			construct := fk(marker) + ": readID = " + valDesc(vs.Val, noteSeq.Name())
+			if isSeq(vs.Val) {
+				g := core.LessGuard("readID<SeqId", core.IsFieldLoad(readID), isSeq, true)
+				ok, cnt := guarded(vs.At, g)
+				r.Check(ok && cnt[0] > 0, "C09.1-marks-monotone", construct, c.pos(st), "behind cached readID < note.SeqId", "the read mark can be set to a value not above the current one (moves backwards / duplicate accepted)")
+			} else {
+				r.Fail("C09.1-marks-monotone", construct, c.pos(st), "read mark assigned from something other than the note's sequence number in the note handler")
+			}
+			ok, cnt := guarded(vs.At, gLast)
+			r.Check(ok && cnt[0] > 0, "C09.1b-marks-bounded", construct, c.pos(st), "behind note.SeqId <= lastID", "a mark beyond the last message id can be stored")
+		}
+		for _, vs := range virtualStores(marker, recvID) {
+			st := vs.St
+			nRecv++
+			construct := fk(marker) + ": recvID = " + valDesc(vs.Val, noteSeq.Name())
+			switch {
+			case isSeq(vs.Val):
+				g := core.LessGuard("recvID<SeqId", core.IsFieldLoad(recvID), isSeq, true)
+				ok, cnt := guarded(vs.At, g)
+				r.Check(ok && cnt[0] > 0, "C09.1-marks-monotone", construct, c.pos(st), "behind cached recvID < note.SeqId", "the received mark can be set to a value not above the current one (the guard compares a different mark or is missing)")
+			case core.IsFieldLoad(readID)(vs.Val):
+				// the received mark compared is the cached one or the one just taken from the note
+				g := core.LessGuard("recvID<readID", core.Or(core.IsFieldLoad(recvID), isSeq), core.IsFieldLoad(readID), true)
+				ok, cnt := guarded(vs.At, g)
+				r.Check(ok && cnt[0] > 0, "C09.1-marks-monotone", fmt.Sprintf("%s #%d", construct, nRecv), c.pos(st), "received dragged up to read only when it is below it", "recvID is overwritten with readID without the recvID < readID test")
+			default:
+				r.Fail("C09.1-marks-monotone", construct, c.pos(st), "received mark assigned from an unexpected value in the note handler")
+			}
+			ok, cnt := guarded(vs.At, gLast)
+			r.Check(ok && cnt[0] > 0, "C09.1b-marks-bounded", fmt.Sprintf("%s #%d", construct, nRecv), c.pos(st), "behind note.SeqId <= lastID", "a mark beyond the last message id can be stored")
+		}
+		core.ParamSubst = nil
 	}
-	core.ParamSubst = nil
 
 	// (2) writers census
 	r.Floor("C09.2-mark-writers", 6)
@@ -140,10 +167,12 @@ func checkC09(c *Ctx) {
 			construct := fmt.Sprintf("%s: store perUserData.%s", fk(a.Fn), fld)
 			role := ""
 			switch {
-			case a.Fn == handler || a.Fn == marker:
+			case a.Fn == handler || isMarker(a.Fn):
 				role = "note handler (decided above)"
 			case core.IsFieldLoad(lastID)(st.Val) || storedIntoField(a.Fn, lastID, st.Val):
 				role = "publisher's own marks = Topic.lastID"
+			case core.IsFieldLoad(lastID)(c.rootValue(st.Val)):
+				role = "publisher's own marks = Topic.lastID (through a method of the record)"
 			case core.IsConstInt(0)(st.Val):
 				role = "reset to 0"
 			case core.Derives(st.Val, core.Or(core.IsFieldLoad(subRead), core.IsFieldLoad(subRecv)), true):
